@@ -27,7 +27,7 @@ ASSUMPTIONS = [
 
 PROFILE = scenario.profile(
     maxD=3, extra_budget=(0, 100), p_subdesign=0.08, cons_x0=("margin",),
-    max_iter_choices=(None, None, 1, 2, 3, 5), tol_mesh_choices=(None, 1e-6, 1e-3, 0.1, 0.6),
+    max_iter_choices=(None, None, 1, 2, 3, 5), tol_mesh_choices=(None, 1e-6, 1e-3, 0.1, 0.6, 0.125, 0.03125),
     noise_modes=("none", "none", "auto", "declared", "specified"),
     specified_spellings=("both", "alone"),
 )
@@ -35,7 +35,7 @@ PROFILE_T = dict(PROFILE, maxD=6, extra_budget=(0, 300))
 SCRIPT_PROFILE = scenario.profile(
     maxD=3, coord_classes=("linear", "tight"), noise_modes=("none",), p_cons=0.0, p_x0_none=0.0,
     x0_classes=("interior", "at_plb", "on_lb"), extra_budget=(10, 110), p_plausible_omitted=0.0,
-    max_iter_choices=(None, None, 2, 5, 8), tol_mesh_choices=(None, 1e-6, 1e-3, 0.1), target_kinds=("l1",),
+    max_iter_choices=(None, None, 2, 5, 8), tol_mesh_choices=(None, 1e-6, 1e-3, 0.1, 0.125, 0.0625, 0.015625), target_kinds=("l1",),
     out_spellings=("float",), spellings=("a1",),
 )
 N = {"quick": 256, "thorough": 4000}
@@ -208,7 +208,7 @@ def body_scripted(case):
 def scripted_cases(draw, prof):
     scn = draw(scenario.scenario(prof))
     oc = draw(scripts.outcome_lists())
-    search = draw(st.one_of(st.none(), scripts.search_modes()))
+    search = draw(st.one_of(st.none(), scripts.search_modes(), st.sampled_from([["empty"], ["empty", "empty", "empty", "real"], ["incumbent"]])))
     return dict(scn=scn, script=oc, search=search)
 
 
